@@ -187,6 +187,11 @@ PropC09big(e) == e.ev = "fillbig" =>
   /\ (e.ctor.outcome = "refused") = (e.n > 16777215)
   /\ e.fill.outcome = e.ctor.outcome
   /\ e.fill.outcome = "ok" => e.fill.size = e.n /\ e.fill.enc = e.n + 4 /\ e.ctor.size = e.n /\ e.ctor.enc = e.n + 4
+\* one call that fills a repeat marker and puts a list that is live elsewhere (with a variable of its own, held by another
+\* parent, or the template itself) into a list-level variable: it returns (the worker's parent records a process that dies
+\* in it as "abort"), it equals the fill in two steps, and nothing that existed before it is different afterwards
+PropC09s(e) == e.ev = "fillself" => e.outcome = "returned" /\ e.same /\ e.pure
+InvC09s == l > 0 => PropC09s(E)
 InvC09 == l > 0 => PropC09(E) /\ PropC09e(E) /\ PropC18e(E) /\ PropC09b(E) /\ PropC09big(E)
 InvC18e == l > 0 => PropC18e(E)
 InvC12 == l > 0 => PropC12(E)
